@@ -16,8 +16,11 @@ def SeekOk (F : Fmt) : Prop :=
   (∀ (s : Bytes) (i j n m c d : Nat), i ≤ j → j ≤ s.length → F.seekRecordBegin (s.drop i) = .ok (n, c) →
       F.seekRecordBegin (s.drop j) = .ok (m, d) → i + n ≤ j + m)
 
-theorem rpEmptyClears_true : rpEmptyClears = true := rfl
-theorem bfEmptyClears_true : bfEmptyClears = true := rfl
+/-- the early returns of `ResetPartition` / `BeforeFirst` leave nothing buffered: either the source has the
+clearing statements (fix C05-1: both constants are `true`, see FixLemmas.lean), or nothing is buffered in
+`s` anyway (a freshly constructed object) -/
+def ClearsOk (s : Base) : Prop :=
+  (rpEmptyClears = true ∧ bfEmptyClears = true) ∨ (s.chunk.rest = [] ∧ s.overflow = [])
 
 namespace SnapAux
 
@@ -531,8 +534,25 @@ theorem rpBeginX_snap (F : Fmt) (files : List Bytes) (ob : Nat) (f : Bytes) (res
         show Except.ok (ob + n) = Except.ok b
         rw [h1]
 
+/-- the conditional clearing of the early returns -/
+theorem ite_clear (b : Bool) (t r : Base) (hc : b = true ∨ (t.chunk.rest = [] ∧ t.overflow = []))
+    (hr : (if b then { t with chunk := t.chunk.clear, overflow := [] } else t) = r) :
+    r.chunk.rest = [] ∧ r.overflow = [] ∧ r.files = t.files ∧ r.offBegin = t.offBegin ∧
+    r.offEnd = t.offEnd ∧ r.bufWords = t.bufWords ∧ r.chunk.dataWords = t.chunk.dataWords := by
+  subst hr
+  cases b with
+  | true =>
+    rw [if_pos rfl]
+    exact ⟨rfl, rfl, rfl, rfl, rfl, rfl, rfl⟩
+  | false =>
+    rw [if_neg (by decide)]
+    rcases hc with hc | ⟨h1, h2⟩
+    · cases hc
+    · exact ⟨h1, h2, rfl, rfl, rfl, rfl, rfl⟩
+
 /-- `BeforeFirst` on a state whose end offset is in range -/
-theorem beforeFirst_spec (t t' : Base) (hne : ∀ f ∈ t.files, f ≠ []) (hoe : t.offEnd ≤ totalSize t.files)
+theorem beforeFirst_spec (t t' : Base) (hne : ∀ f ∈ t.files, f ≠ []) (hc : ClearsOk t)
+    (hoe : t.offEnd ≤ totalSize t.files)
     (ht : totalSize t.files < 2^62) (h : beforeFirst t = .ok t') :
     Clean t' ∧ RInv t' ∧ t'.files = t.files ∧ t'.offBegin = t.offBegin ∧ t'.offEnd = t.offEnd ∧
     t'.bufWords = t.bufWords ∧ t'.chunk.dataWords = t.chunk.dataWords := by
@@ -540,9 +560,14 @@ theorem beforeFirst_spec (t t' : Base) (hne : ∀ f ∈ t.files, f ≠ []) (hoe 
   by_cases hb : bfEmpty t.offBegin t.offEnd = true
   · rw [if_pos hb] at h
     have hle : t.offEnd ≤ t.offBegin := by simpa [bfEmpty] using hb
-    simp only [bfEmptyClears_true, if_true] at h
-    injection h with h; subst h
-    exact ⟨⟨rfl, rfl, Or.inl hle⟩, ⟨hne, hoe, Or.inl hle⟩, rfl, rfl, rfl, rfl, rfl⟩
+    injection h with h
+    obtain ⟨r1, r2, r3, r4, r5, r6, r7⟩ :=
+      ite_clear bfEmptyClears t t' (hc.elim (fun hc => Or.inl hc.2) Or.inr) h
+    refine ⟨⟨r1, r2, Or.inl ?_⟩, ⟨?_, ?_, Or.inl ?_⟩, r3, r4, r5, r6, r7⟩
+    · rw [r4, r5]; exact hle
+    · rw [r3]; exact hne
+    · rw [r3, r5]; exact hoe
+    · rw [r4, r5]; exact hle
   · rw [if_neg hb] at h
     have hlt : t.offBegin < t.offEnd := by
       simp [bfEmpty] at hb; omega
@@ -586,12 +611,21 @@ theorem beforeFirst_ok (t : Base) (p : Nat) (hp : t.fpos = some p)
     exact ⟨_, rfl⟩
 
 theorem rpCore_empty (F : Fmt) (s : Base) (ob : Nat) :
-    rpCore F s ob ob = .ok { s with offBegin := ob, offEnd := ob, offCurr := ob,
-                                    chunk := s.chunk.clear, overflow := [] } := by
+    rpCore F s ob ob =
+      .ok (if rpEmptyClears then
+             { s with offBegin := ob, offEnd := ob, offCurr := ob, chunk := s.chunk.clear, overflow := [] }
+           else { s with offBegin := ob, offEnd := ob, offCurr := ob }) := by
   unfold rpCore
   simp only []
   rw [if_pos (by simp [rpEmpty])]
-  simp only [rpEmptyClears_true, if_true]
+
+theorem rpCore_empty_spec (F : Fmt) (s : Base) (ob : Nat) (hc : ClearsOk s) :
+    ∃ s', rpCore F s ob ob = .ok s' ∧ s'.chunk.rest = [] ∧ s'.overflow = [] ∧ s'.files = s.files ∧
+      s'.offBegin = ob ∧ s'.offEnd = ob ∧ s'.bufWords = s.bufWords ∧
+      s'.chunk.dataWords = s.chunk.dataWords := by
+  rw [rpCore_empty]
+  exact ⟨_, rfl, ite_clear rpEmptyClears { s with offBegin := ob, offEnd := ob, offCurr := ob } _
+    (hc.elim (fun hc => Or.inl hc.1) Or.inr) rfl⟩
 
 /-- what `rpCore` does when the raw range is not empty: both offsets are snapped (`snap`), then
 `BeforeFirst` runs on the snapped range -/
@@ -624,7 +658,7 @@ theorem rpCore_cases (F : Fmt) (s : Base) (ob oe : Nat) (ht : totalSize s.files 
       exact Or.inr ⟨oe', ob', pos, by rw [← hE, hX'], hB2 _ _ hY', hr⟩
 
 theorem rpCore_spec (F : Fmt) (hS : SeekOk F) (s s' : Base) (ob oe : Nat)
-    (hne : ∀ f ∈ s.files, f ≠ []) (ht : totalSize s.files < 2^62) (hle : ob ≤ oe)
+    (hne : ∀ f ∈ s.files, f ≠ []) (hc : ClearsOk s) (ht : totalSize s.files < 2^62) (hle : ob ≤ oe)
     (hoe : oe ≤ totalSize s.files) (h : rpCore F s ob oe = .ok s') :
     ((ob = oe ∧ s'.offBegin = ob ∧ s'.offEnd = ob) ∨
      (ob < oe ∧ snap F s.files ob = .ok s'.offBegin ∧ snap F s.files oe = .ok s'.offEnd)) ∧
@@ -633,9 +667,18 @@ theorem rpCore_spec (F : Fmt) (hS : SeekOk F) (s s' : Base) (ob oe : Nat)
   by_cases he : ob = oe
   · subst he
     rw [rpCore_empty] at h
-    injection h with h; subst h
-    exact ⟨Or.inl ⟨rfl, rfl, rfl⟩, ⟨rfl, rfl, Or.inl (Nat.le_refl _)⟩,
-      ⟨hne, hoe, Or.inl (Nat.le_refl _)⟩, rfl, rfl, rfl⟩
+    injection h with h
+    obtain ⟨r1, r2, r3, r4, r5, r6, r7⟩ :=
+      ite_clear rpEmptyClears { s with offBegin := ob, offEnd := ob, offCurr := ob } s'
+        (hc.elim (fun hc => Or.inl hc.1) Or.inr) h
+    have r4' : s'.offBegin = ob := r4
+    have r5' : s'.offEnd = ob := r5
+    have r3' : s'.files = s.files := r3
+    refine ⟨Or.inl ⟨rfl, r4', r5'⟩, ⟨r1, r2, Or.inl ?_⟩, ⟨?_, ?_, Or.inl ?_⟩, r3', r6, r7⟩
+    · rw [r4', r5']; exact Nat.le_refl _
+    · rw [r3']; exact hne
+    · rw [r3', r5']; exact hoe
+    · rw [r4', r5']; exact Nat.le_refl _
   · have hlt : ob < oe := by omega
     rcases rpCore_cases F s ob oe ht hlt hoe with ⟨e, _, h1⟩ | ⟨oe', e, _, _, h1⟩ |
         ⟨oe', ob', pos, hse, hsb, h1⟩
@@ -643,8 +686,8 @@ theorem rpCore_spec (F : Fmt) (hS : SeekOk F) (s s' : Base) (ob oe : Nat)
     · rw [h1] at h; cases h
     · rw [h1] at h
       have hoe' := (snap_bounds F s.files hne hS _ _ hoe hse).2
-      obtain ⟨c1, c2, c3, c4, c5, c6, c7⟩ := beforeFirst_spec _ s' (by exact hne) (by exact hoe')
-        (by exact ht) h
+      obtain ⟨c1, c2, c3, c4, c5, c6, c7⟩ := beforeFirst_spec _ s' (by exact hne)
+        (by exact hc.elim Or.inl Or.inr) (by exact hoe') (by exact ht) h
       refine ⟨Or.inr ⟨hlt, ?_, ?_⟩, c1, c2, c3, c6, c7⟩
       · rw [c4]; exact hsb
       · rw [c5]; exact hse
@@ -669,9 +712,10 @@ end SnapAux
 open SnapAux
 
 /-- `ResetPartition` computes the two boundaries and leaves a clean, well-formed state.  When the two
-raw offsets coincide the code returns before snapping them (the part is empty either way). -/
+raw offsets coincide the code returns before snapping them (the part is empty either way).
+`ClearsOk s`: the source has the clearing statements of fix C05-1, or `s` buffers nothing. -/
 theorem resetPartition_spec (F : Fmt) (ha : F.align = 1 ∨ F.align = 4) (hS : SeekOk F) (s s' : Base)
-    (k n : Nat) (hne : ∀ f ∈ s.files, f ≠ []) (ht : totalSize s.files < 2^62) (hk : k < n)
+    (k n : Nat) (hne : ∀ f ∈ s.files, f ≠ []) (hc : ClearsOk s) (ht : totalSize s.files < 2^62) (hk : k < n)
     (hn : n < 2^32) (h : resetPartition F s k n = .ok s') :
     ((rawBnd F s.files n k = rawBnd F s.files n (k + 1) ∧
         bnd F s.files n k = bnd F s.files n (k + 1) ∧
@@ -684,7 +728,7 @@ theorem resetPartition_spec (F : Fmt) (ha : F.align = 1 ∨ F.align = 4) (hS : S
     rpEnd_eq_rawBnd F s.files k n ha ht hk hn] at h
   have hmono := rawBnd_mono F s.files n k (k + 1) (by omega)
   have hoeT := rawBnd_le F s.files n (k + 1)
-  obtain ⟨h1, h2⟩ := rpCore_spec F hS s s' _ _ hne ht hmono hoeT h
+  obtain ⟨h1, h2⟩ := rpCore_spec F hS s s' _ _ hne hc ht hmono hoeT h
   refine ⟨?_, h2⟩
   rcases h1 with ⟨e1, e2, e3⟩ | ⟨e1, e2, e3⟩
   · exact Or.inl ⟨e1, by unfold bnd; rw [e1], e2, e3⟩
@@ -692,11 +736,11 @@ theorem resetPartition_spec (F : Fmt) (ha : F.align = 1 ∨ F.align = 4) (hS : S
 
 /-- whenever both boundaries exist, the state holds them, or an empty range and then they are equal -/
 theorem resetPartition_range (F : Fmt) (ha : F.align = 1 ∨ F.align = 4) (hS : SeekOk F) (s s' : Base)
-    (k n : Nat) (hne : ∀ f ∈ s.files, f ≠ []) (ht : totalSize s.files < 2^62) (hk : k < n)
+    (k n : Nat) (hne : ∀ f ∈ s.files, f ≠ []) (hc : ClearsOk s) (ht : totalSize s.files < 2^62) (hk : k < n)
     (hn : n < 2^32) (h : resetPartition F s k n = .ok s')
     (b e : Nat) (hb : bnd F s.files n k = .ok b) (he : bnd F s.files n (k + 1) = .ok e) :
     (s'.offBegin = b ∧ s'.offEnd = e) ∨ (s'.offEnd ≤ s'.offBegin ∧ b = e) := by
-  obtain ⟨h1, _⟩ := resetPartition_spec F ha hS s s' k n hne ht hk hn h
+  obtain ⟨h1, _⟩ := resetPartition_spec F ha hS s s' k n hne hc ht hk hn h
   rcases h1 with ⟨_, h2, h3, h4⟩ | ⟨_, h2, h3⟩
   · right
     rw [hb, he] at h2
